@@ -20,7 +20,7 @@ RULE = ("case = generated layout (depth <= 4, 10-25 entries incl. look-alikes an
         "(./src, src, a/b, absolute) ; runs: check + edit from the project dir, then edit again from 1-2 other working "
         "directories (relative and absolute -c). Non-trivial = layout with at least one out-of-scope decoy carrying a missing "
         "reference and one in-scope file; distinct = case index.")
-PROBES = ["exdev_run", "stem_siblings", "unreadable_subdir", "config_in_subdir", "symlink_to_file", "symlink_to_dir", "symlink_outside", "dir_named_rs", "lookalike_ext", "abs_source_dir", "cwd_outside",
+PROBES = ["config_via_symlink", "exdev_run", "stem_siblings", "unreadable_subdir", "config_in_subdir", "symlink_to_file", "symlink_to_dir", "symlink_outside", "dir_named_rs", "lookalike_ext", "abs_source_dir", "cwd_outside",
           "cwd_root_abs", "empty_scope", "multi_ext", "hidden_rs", "nested_depth4"]
 ASSUMPTIONS = ["source_dir itself is a real directory (not a symlink)"]
 DEADLINE = {"quick": 200, "thorough": 3000}
@@ -115,6 +115,9 @@ def gen(rng):
         extra["proj/src/keep.txt"] = {"t": "f", "mode": 0o644, "data": b"the src directory must exist for src/../code to resolve\n"}
     if cfgdir:
         tags.add("config_in_subdir")
+        # the configuration directory can also be reached through a symbolic link elsewhere: "<link>/../src" must be
+        # resolved the way the kernel does it (to proj/src), not by folding the text (to outside/src)
+        extra["outside/link_conf"] = {"t": "l", "target": "../proj/" + cfgdir}
     # a source-like tree under the *working directory* of the other-cwd runs: must never be touched
     extra["outside/src/cwd_decoy.rs"] = {"t": "f", "mode": 0o644, "data": stmt(mk())}
     extra["outside/a/b/cwd_decoy.rs"] = {"t": "f", "mode": 0o644, "data": stmt(mk())}
@@ -166,7 +169,8 @@ def model_scope(wm, base):
 def opened_for_read(res):
     import os as _os
     return {_os.path.normpath(o.path) for o in res.ops if o.kind == "OPEN_R" and o.ret >= 0
-            and core.path_class(o.path) in ("proj", "outside")}
+            and core.path_class(o.path) in ("proj", "outside")
+            and not o.path.endswith((".yaml", ".yml")) and "Breadlog.lock" not in o.path}
 
 
 def evaluate(wm, seed, base, ctx, cwds=(("outside", "rel"), ("/", "abs"))):
@@ -211,8 +215,15 @@ def evaluate(wm, seed, base, ctx, cwds=(("outside", "rel"), ("/", "abs"))):
         V("check-modified-tree", "%s" % core.diff_worlds(chk["before"], chk["after"])[:3])
     # edit from the project directory, then from other working directories
     results = []
-    for cwd, arg in (("proj", "rel"),) + tuple(cwds):
+    runs = [("proj", "rel", None)] + [(c, a, None) for c, a in cwds]
+    if "outside/link_conf" in wm["extra"]:
+        runs.append(("outside", "rel", "link_conf/Breadlog.yaml"))
+        runs.append(("/", "abs", "@ROOT@/outside/link_conf/Breadlog.yaml"))
+    for cwd, arg, override in runs:
         knobs = {"cwd": cwd, "config_arg": arg, "threads": 2, "config_name": cfgname}
+        if override:
+            knobs["config_override"] = override
+            ctx.probes["config_via_symlink"] += 1
         run = scen.exec_run(wm, False, plan, knobs, ctx)
         res = run["res"]
         dg.update(res.trace_digest().encode())
